@@ -89,6 +89,10 @@ pub fn build(rng: &mut Rng, rep: &mut Report) -> Option<Kw> {
     KAMINO_SKEW_COLLATERAL.store(0, Ordering::SeqCst);
     KAMINO_SKEW_LIQUIDITY.store(0, Ordering::SeqCst);
     let mut w = World::new();
+        // fresh keys are hashes of a counter: a random starting point makes the relative ORDER of the keys created below (banks,
+        // accounts, vaults) differ from world to world — positions are kept sorted by bank key, and order-dependent code paths
+        // would otherwise see the same order in every world
+        w.key_counter = rng.below(1 << 40);
     w.add_program(KAMINO_PROGRAM_ID);
     w.add_program(FARMS_PROGRAM_ID);
     w.set_clock(1_700_000_000 + rng.range(0, 1_000_000), 1000);
